@@ -206,6 +206,39 @@ def open_backlog_layer(prop, tier, seed, out, mc):
     mc['OpenBacklog'] = st
 
 
+def calls_after_error_layer(prop, tier, seed, out, mc):
+    """Every call returns also once the database has latched a background error: the fault-injection workloads of C12 (writes,
+    forced flushes, manual compactions of every level, close / open cycles) are run with a PERSISTENT failure armed at sites spread
+    over the run; only what C09 states is judged here - an execution that stops returning (twice, with the same site) is a violation,
+    what the calls answer is C12's business."""
+    from . import p_disk
+    lib = c.build_lib(); exe = c.build_driver('crash', lib)
+    st = dict(executions=0, hangs=0, sites=0)
+    for wi, (wseed, bits, nb) in enumerate([(seed * 1000 + 61, 0x000, 40)] if tier == 'quick' else [(seed * 1000 + 61 + i, b, 60) for i, b in enumerate([0x000, 0x800, 0x102])]):
+        d = c.scratch('ce'); j = os.path.join(d, 'journal')
+        p = c.sh([exe, 'record', str(wseed), os.path.join(d, 'db'), j, str(bits), str(nb), '1'], timeout=120, env=dict(FAULT_K=10 ** 9, FAULT_PERSIST=0, FAULT_ERRNO=28))
+        if p.returncode != 0: raise Broken('calls-after-error baseline failed rc=%s %s' % (p.returncode, p.stderr[-300:]))
+        n = 0
+        for text in p_disk.marks_of(j):
+            if text.startswith('count '): n = int(text.split(' ')[1])
+        c.rmtree(d)
+        if n <= 0: raise Broken('no eligible calls counted')
+        ks = sorted(set(max(1, n * i // (16 if tier == 'quick' else 60)) for i in range(1, (16 if tier == 'quick' else 60))))
+        res = c.pmap(lambda k: p_disk.fault_run(exe, wseed, bits, nb, k % 2, k, 1, 28 if k % 3 else 5), ks, c.NCPU)
+        st['sites'] += len(ks)
+        for k, r in zip(ks, res):
+            st['executions'] += 1
+            if r.get('fail') in ('hang', 'recover hang'):
+                r2 = p_disk.fault_run(exe, wseed, bits, nb, k % 2, k, 1, 28 if k % 3 else 5)
+                if r2.get('fail') != r.get('fail'): continue
+                st['hangs'] += 1
+                rd = c.replay_dir(prop, 'errhang')
+                json.dump(dict(kind='fault', workload=dict(seed=wseed, bits=bits, nb=nb), site=r['info'], why=r['fail']), open(os.path.join(rd, 'replay.json'), 'w'), indent=1)
+                out.violation('a call made after a latched background error never returned (persistent failure of eligible system call %d, workload seed=%d): %s' % (k, wseed, r['fail']), rd, dict(kind='hang_after_error'))
+                if out.full(): break
+    mc['CallsAfterError'] = st
+
+
 def run_conc_prop(prop, tier, seed):
     t0 = time.time()
     out = Outcome(prop)
@@ -214,6 +247,8 @@ def run_conc_prop(prop, tier, seed):
     conc_mc('Conc_quick' if tier == 'quick' else 'Conc_thorough', prop, out, mc)
     if prop == 'C09' and not out.full():
         open_backlog_layer(prop, tier, seed, out, mc)
+    if prop == 'C09' and not out.full():
+        calls_after_error_layer(prop, tier, seed, out, mc)
     sample = st.pop('sample', [])
     cov = dict(states=st.get('states', 0) + mc.get('states', 0), transitions=st.get('transitions', 0) + mc.get('transitions', 0),
                traces_validated_against_impl=st.get('executions', 0) - st.get('hangs', 0), samples=[sample], conc_trace=st, conc_mc=mc, exhaustive=False)
